@@ -118,6 +118,7 @@ struct Div {
                     cause = "bias-not-representable";
             }
         }
+        if (std::string(cause) != "value-mismatch") o.region = cause;
         Res got{};
         bool ok = guard(o, [&] {
             if constexpr (Via == 0) {
